@@ -233,6 +233,12 @@ func c05Cases(tier string) []c05Case {
 				out = append(out, c05Case{Hist: &h})
 			}
 		}
+		// the same edits seen through a receiver-side Filter that rewrites ownership: notifications and
+		// digests must still describe the entries as sent
+		for _, e := range allEdits(base) {
+			h := History{Base: base, Steps: [][]Edit{{e}}, FilterUID: true}
+			out = append(out, c05Case{Hist: &h})
+		}
 		h0 := History{Base: base, Steps: [][]Edit{{}}}
 		out = append(out, c05Case{Hist: &h0})
 		if tier == "thorough" {
